@@ -173,6 +173,10 @@ RCP<const Set> Interval::set_intersection(const RCP<const Set> &o) const
         }
     }
     if (is_a<Integers>(*o) or is_a<Naturals>(*o) or is_a<Naturals0>(*o)) {
+        if (is_a<Infty>(*start_) or is_a<Infty>(*end_)) {
+            // infinitely many integers: cannot be listed
+            return make_set_intersection({rcp_from_this_cast<const Set>(), o});
+        }
         if (is_a_Number(*start_) and is_a_Number(*end_)) {
             auto first = SymEngine::ceiling(start_);
             auto last = SymEngine::floor(end_);
